@@ -4,25 +4,28 @@ structure of the live object is extracted; every query must answer as a freshly 
 structure answers (two runs of the real code certify a dependence on history) and as the Lean model of the
 extracted structure does (membership oracle, eclose, determinism, emptiness)."""
 import itertools
-from pyformlang.finite_automaton import EpsilonNFA, NondeterministicFiniteAutomaton, Epsilon, State
+from pyformlang.finite_automaton import (EpsilonNFA, NondeterministicFiniteAutomaton, DeterministicFiniteAutomaton,
+                                         Epsilon, State)
 from . import fa as F
 from .core import outcome
 
 STATES = ["q0", "q1", "q2", 0]
 SYMS = ["a", "b"]
-HEAVY = ["to_deterministic", "remove_epsilon", "minimize", "words", "copy"]
+HEAVY = ["to_deterministic", "remove_epsilon", "minimize", "words", "copy", "to_regex"]
 LIGHT = ["accepts", "eclose", "is_deterministic", "is_empty"]
 WORDS = [list(w) for n in range(0, 4) for w in itertools.product(SYMS, repeat=n)]
 
 
 def gen_history(rng):
-    cls = rng.choice(["E", "E", "N"])
+    cls = rng.choice(["E", "E", "N", "D"])
     ops = [["add_s", "q0"], ["add_f", rng.choice(STATES)]]
     present = []
 
     def add():
         a = None if (cls == "E" and rng.random() < 0.4) else rng.choice(SYMS)
         t = [rng.choice(STATES), a, rng.choice(STATES)]
+        if cls == "D" and any(u[0] == t[0] and u[1] == t[1] for u in present):
+            return      # a deterministic automaton refuses a second target
         ops.append(["add_t"] + t)
         present.append(t)
     for _ in range(rng.randint(2, 5)):
@@ -51,7 +54,7 @@ def gen_history(rng):
 
 
 def new(cls):
-    return EpsilonNFA() if cls == "E" else NondeterministicFiniteAutomaton()
+    return {"E": EpsilonNFA, "N": NondeterministicFiniteAutomaton, "D": DeterministicFiniteAutomaton}[cls]()
 
 
 def sym(a):
@@ -115,6 +118,8 @@ def query(fa, name):
         return sorted(tuple(str(s.value) for s in w) for w in fa.get_accepted_words(3))
     if name == "copy":
         return lang_sig(fa.copy())
+    if name == "to_regex":
+        return lang_sig(fa.to_regex())
     raise ValueError(name)
 
 
@@ -156,7 +161,7 @@ def run_history(case, drv, res):
         if got[0] == "ok":
             mem = drv.call("fa.member", A=a, words=[[SYMS.index(c) for c in w] for w in WORDS])
             res.corr += 1
-            sigs = [got[1][0]] + ([got[1][-1]] if op[1] in ("to_deterministic", "remove_epsilon", "minimize", "copy") else [])
+            sigs = [got[1][0]] + ([got[1][-1]] if op[1] in ("to_deterministic", "remove_epsilon", "minimize", "copy", "to_regex") else [])
             if any(sg != mem for sg in sigs):
                 res.violation(name, "language of the result differs from the language of the current structure",
                               detail={"step": idx, "history": ops[:idx + 1], "structure": a, "impl": sigs, "spec": mem})
